@@ -25,6 +25,13 @@
 #include <unordered_map>
 #include <vector>
 
+#ifdef JOEGEN_IORA_VERIF
+// Verification hook H3 (add-only, compiled out unless JOEGEN_IORA_VERIF is defined):
+// lets the C18 harness drive the private receive path (handleData) without a socket.
+#define JOEGEN_IORA_VERIF_WS_CLIENT_PROBE 1
+namespace iora { namespace verif { struct WebSocketClientProbe; } }
+#endif
+
 namespace iora {
 namespace network {
 
@@ -163,6 +170,10 @@ public:
       // A throw must never escape a destructor.
     }
   }
+
+#ifdef JOEGEN_IORA_VERIF
+  friend struct ::iora::verif::WebSocketClientProbe; // verification hook H3
+#endif
 
   WebSocketClient(const WebSocketClient&) = delete;
   WebSocketClient& operator=(const WebSocketClient&) = delete;
